@@ -43,8 +43,27 @@ theorem add_small (a b : Int) (h : (a + b).natAbs < 2 ^ 255) : Int256.add a b = 
   rw [if_neg]
   exact (Int256.bitLen_le_iff (a + b) 255).mpr h
 
+set_option linter.unusedSimpArgs false
+
+/-- Hooks whose handler counts executed messages in `World.rest`. -/
+def countingHooks (decode : Bytes → Option (Tx Nat)) : Hooks S Nat :=
+  { decode := decode, hash := id, SB := SB,
+    handler := fun _ w _ _ => ({ w with rest := w.rest + 1 }, Result.okRes) }
+
+/-- A decoder that maps *every* byte string to one and the same signed transaction — what a
+malleable wire format looks like from the pipeline's point of view. -/
+def sloppy : Bytes → Option (Tx Nat) := fun _ => some (tx 1 1 0 [])
+
+def node0 : Node S Nat := ⟨w, [], [], []⟩
+
+/-- For each DeliverTx of a history from `node0`: did it pass the ante handler, and the message
+counter afterwards. -/
+def observe (ops : List (Op S Nat)) : List (Bool × Nat) :=
+  (run (countingHooks sloppy) node0 ops).2.map fun e => (e.passed, e.post.rest)
+
 local macro "ante_eval" : tactic => `(tactic|
-  simp [anteHandler, txValidateBasic, isValid, isValidTail, isLower, validateTransaction, validSigners, baseSigners,
+  simp [observe, run, deliverTx, antePasses, runTx, countingHooks, sloppy, node0, endBlock, Result.anteLevel,
+    Result.okRes, anteHandler, txValidateBasic, isValid, isValidTail, isLower, validateTransaction, validSigners, baseSigners,
     outputSigner, isMsgAppTransfer, signerLoop, signerKey, tx, msg, w, params, env, S, expectedFee, getFee,
     validateSignatureDepth, recSignDepth, recSignKey, deductFees, sendCoins, subtractCoins, addCoins, setCoins,
     setAcc, safeSub, safeAdd, negative, removeZero, pushNZ, isAnyNegative, isCont, signDocOf, haltHeight, upokt,
@@ -73,6 +92,22 @@ theorem stranger_cont_at_halt :
 
 /-- A free message (required fee 0) with an empty fee. -/
 theorem free_cont : isCont (anteHandler S SB (env 5) w (tx 1 1 0 []) false false) = true := by
+  ante_eval
+
+/-- Two different byte strings with the same decoded content are both executed in one block. -/
+theorem two_encodings_both_run :
+    observe [.deliver (env 5) [1], .deliver (env 5) [2]] = [(true, 1), (true, 2)] := by
+  ante_eval
+
+/-- The same bytes again in the same block: blocked by the in-block cache. -/
+theorem same_bytes_second_blocked :
+    observe [.deliver (env 5) [1], .deliver (env 5) [1]] = [(true, 1), (false, 1)] := by
+  ante_eval
+
+/-- The same bytes in a later block: blocked by the indexer; another encoding still runs. -/
+theorem same_bytes_next_block_blocked :
+    observe [.deliver (env 5) [1], .endBlock, .deliver (env 6) [1], .deliver (env 6) [2]] =
+      [(true, 1), (false, 1), (true, 2)] := by
   ante_eval
 
 end Ledger.Toy
